@@ -65,7 +65,7 @@ pub enum Item {
     Fn(FnSpec),
     Impl { file: String, head: String, hdr: Option<String>, fns: Vec<FnSpec>, extra: String },
     Lift(LiftSpec),
-    Const { file: String, name: String },
+    Const { file: String, name: String, ensures: String, props: Vec<String>, line: usize },
     Derive { file: String, names: Vec<String> },
 }
 
@@ -80,6 +80,7 @@ pub struct Unit {
     pub path_map: Vec<(String, String)>,
     pub uses: Vec<String>,
     pub method_map: Vec<(String, String)>,
+    pub strlit: Option<String>, // R-STR: string literals in expression position become `<strlit>("lit")`
     pub items: Vec<Item>,
     pub trusted_allow: Vec<String>,
     pub assumptions: Vec<String>,
@@ -164,7 +165,7 @@ pub fn preprocess(text: &str, dir: &std::path::Path, depth: usize) -> Result<Str
                 match is_directive(l) {
                     Some(("unit", _)) | Some(("serves", _)) => continue,
                     Some(("prelude", a)) => { flush(&mut buf, &mut pending_fn, &mut out); out.push_str(&format!("@prelude {}\n", a)); }
-                    Some((d, _)) if matches!(d, "fn" | "lift" | "raw" | "spec" | "type" | "impl" | "endimpl" | "const" | "derive" | "use" | "enum-eq" | "path-map" | "type-map" | "method-map" | "assume" | "not-under-contract" | "stub-eq" | "trusted-allow") => {
+                    Some((d, _)) if matches!(d, "fn" | "lift" | "raw" | "spec" | "type" | "impl" | "endimpl" | "const" | "derive" | "use" | "enum-eq" | "path-map" | "type-map" | "method-map" | "assume" | "not-under-contract" | "stub-eq" | "trusted-allow" | "strlit") => {
                         flush(&mut buf, &mut pending_fn, &mut out);
                         pending_fn = matches!(d, "fn" | "lift");
                         buf.push(l.to_string());
@@ -195,7 +196,7 @@ pub fn parse(text: &str) -> Result<Unit, String> {
             return Err(format!("spec line {}: text before first directive", ln + 1));
         }
     }
-    enum Ctx { None, Fn, Type, Lift }
+    enum Ctx { None, Fn, Type, Lift, Const }
     let mut ctx = Ctx::None;
     let mut in_impl = false;
     fn cur_fn(unit: &mut Unit, in_impl: bool) -> Option<&mut FnSpec> {
@@ -219,6 +220,7 @@ pub fn parse(text: &str) -> Result<Unit, String> {
                 // `From => To`
                 for l in full.lines() { if let Some((x, y)) = l.split_once("=>") { unit.type_map.push((x.trim().replace(' ', ""), y.trim().to_string())); } }
             }
+            "strlit" => unit.strlit = Some(full_trim),
             "use" => unit.uses.push(format!("use {};", full_trim.trim_end_matches(';'))),
             "path-map" => {
                 for l in full.lines() { if let Some((x, y)) = l.split_once("=>") { unit.path_map.push((x.trim().to_string(), y.trim().to_string())); } }
@@ -242,8 +244,8 @@ pub fn parse(text: &str) -> Result<Unit, String> {
                 let mut it = a.split_whitespace();
                 let file = it.next().ok_or(format!("line {ln}: @const file NAME"))?.to_string();
                 let name = it.next().ok_or(format!("line {ln}: @const file NAME"))?.to_string();
-                unit.items.push(Item::Const { file, name });
-                ctx = Ctx::None;
+                unit.items.push(Item::Const { file, name, ensures: String::new(), props: vec![], line: ln });
+                ctx = Ctx::Const;
             }
             "derive" => {
                 let mut it = a.split_whitespace();
@@ -294,6 +296,15 @@ pub fn parse(text: &str) -> Result<Unit, String> {
                                 continue;
                             }
                             _ => return Err(format!("line {ln}: unknown type sub-directive @{sub}")),
+                        }
+                    }
+                }
+                if let Ctx::Const = ctx {
+                    if let Some(Item::Const { ensures, props, .. }) = unit.items.last_mut() {
+                        match sub {
+                            "ensures" => { *ensures = full_trim; continue; }
+                            "props" => { *props = a.split_whitespace().map(String::from).collect(); continue; }
+                            _ => return Err(format!("line {ln}: unknown const sub-directive @{sub}")),
                         }
                     }
                 }
